@@ -693,14 +693,16 @@ def c14(tier):
             T("transformer", "VerifC14_Inert", {"N": n}),
             T("transformer", "VerifC14_TypeOrder", {"N": n}),
             T("transformer", "VerifC14_ManyRelations", {}, sched="rot", prune=True),
+            T("transformer", "VerifC14_ParamOrder", {"N": W(tier, 2, 3)}, sched="all", prune=True),
+            T("transformer", "VerifC14_CondOrder", {"N": n}, sched="all", prune=True),
             T("transformer", "VerifC02_Names", {"N": 2}, sched="all", prune=True)]
     out = engine_a_check("C14", tier, jobs, {"VerifC14_CmpPair": ["less", "greater", "equal"], "VerifC14_CmpTriple": ["chain"],
                                              "VerifC14_Canonical": ["printed"], "VerifC14_Inert": ["compared"], "VerifC02_Names": ["printed"],
-                                             "VerifC14_TypeOrder": ["printed"], "VerifC14_ManyRelations": ["printed"]},
+                                             "VerifC14_TypeOrder": ["printed"], "VerifC14_ManyRelations": ["printed"], "VerifC14_ParamOrder": ["printed"], "VerifC14_CondOrder": ["printed"]},
                          ["names/modules/files over small alphabets (the code only compares and copies bytes)",
                           "JSON key order reduces to map order (protojson not encoded)",
                           "file/module names containing a line break or ' #' are outside (property)"], "",
-                         bounds={"CmpPair": "two keys, every string of length <= %d" % W(tier, 2, 3), "CmpTriple": "three keys, every string of length <= %d" % W(tier, 1, 2),
+                         repeat_native=8, bounds={"CmpPair": "two keys, every string of length <= %d" % W(tier, 2, 3), "CmpTriple": "three keys, every string of length <= %d" % W(tier, 1, 2),
                                  "Canonical/Inert": "modular model: 2 types, 2 relations, 2 conditions x 4 parameters, all names symbolic of length <= %d, every iteration order of every map in jsontodsl.go (state-hash pruned), both type orders, both option values" % n})
     out.finish()
 
